@@ -178,7 +178,7 @@ package main
 //@   call NewThrottledRecorder#1 assert [C05,C11] conf.Throttler.Activate && ref($0) == siteres("NewCPTVFileRecorder", 1) && $1 == ref(conf.Throttler) && $2 == conf.Recorder.MinSecs + conf.Recorder.PreviewSecs && ref($4) == headerInfo
 //@   call NewMotionProcessor#1 assert [C05,C11] (conf.Throttler.Activate ==> sitehappened("NewThrottledRecorder", 1)) && (sitehappened("NewThrottledRecorder", 1) ==> conf.Throttler.Activate && ref($5) == siteres("NewThrottledRecorder", 1)) && (!conf.Throttler.Activate ==> ref($5) == siteres("NewCPTVFileRecorder", 1))
 //@   call NewMotionProcessor#1 assert [C02,C03,C04,C07,C08,C11,C13,C15] $0 == callres("frameParser", 1) && $0 != nil && $1 == ref(conf.Motion) && $2 == ref(conf.Recorder) && $3 == ref(conf.Location) && ref($6) == headerInfo
-//@   call NewMotionProcessor#1 assert [C17] (conf.Recorder.ConstantRecorder ==> sitehappened("NewCPTVFileRecorder", 2)) && (sitehappened("NewCPTVFileRecorder", 2) ==> conf.Recorder.ConstantRecorder && ref($7) == siteres("NewCPTVFileRecorder", 2)) && (!conf.Recorder.ConstantRecorder ==> ref($7) == 0) && ref($8) == siteres("NewCPTVFileRecorder", 3)
+//@   call NewMotionProcessor#1 assert [C12,C17] (conf.Recorder.ConstantRecorder ==> sitehappened("NewCPTVFileRecorder", 2)) && (sitehappened("NewCPTVFileRecorder", 2) ==> conf.Recorder.ConstantRecorder && ref($7) == siteres("NewCPTVFileRecorder", 2)) && (!conf.Recorder.ConstantRecorder ==> ref($7) == 0) && ref($8) == siteres("NewCPTVFileRecorder", 3)
 //@   loop 1 invariant processor != nil && processor.PInv() && processor.parseFrame != nil && len(rawFrame) >= 5 && headerInfo != nil && headerInfo.fps >= 1 && frameLogIntervalFirstMin >= 1 && frameLogInterval >= 1 && reader != nil
 //@   loop 1 invariant [C14,C13] ncalls("ReadFull") == 2 * ncalls("Process") + ncalls("Reset")
 //@   call ReadFull#1 assert [C14] ref($0) == reader && arr($1) == arr(rawFrame) && off($1) == off(rawFrame) && len($1) == 5
